@@ -261,5 +261,20 @@ C["C09"]={"jobs":c09,"assumptions":COAL_ASSUME+["any non-empty Warnings excuses 
   "outside":["groups with more than 4-5 records","the regex tokenizer (C05/C12)","ECS fields"]}
 c15=[job("repeatable","aucoalesce","VH_Repeatable",["C15/"],{},Q,bounds="four concrete groups (execve with PATH/CWD/EXECVE, failed connect with SOCKADDR/PROCTITLE, USER_LOGIN, AVC+SYSCALL) through the real Parse: Data/Tags snapshots before and after, second coalesce equal, earlier event unchanged by a later coalesce")]
 C["C15"]={"jobs":c15,"assumptions":COAL_ASSUME,"outside":["arbitrary message text (C05 covers the parser's totality)","concurrent coalescing and ID resolution (planned)","ResolveIDs against real user databases"]}
+
+RTF=["pid","uid","gid","auid","exit","msgtype","arch","path","exe","key","perm","filetype","a0","success","inode","subj_user","obj_uid","dir"]
+c07=[]
+for i,f in enumerate(RTF):
+    if f in ("key","dir","perm"): continue
+    lst = 2 if f=="msgtype" else 0
+    c07.append(job("field-"+f,"rule/flags","VH_RoundTrip",["C07/"],{"shape":0,"field":i,"list":lst,"digits":10,"smalldigits":4,"strmax":2,"maxkeys":1,"sysforms":3},Q,expect=["C07/accepted-by-build"],
+       bounds=f"syscall rule with one {f} filter (every admissible operator, full-range symbolic decimal values / names / strings of 1..3 plain bytes) x action x {{no -S, -S open|execve|all, -S 0|59|1000|2047}} x 0..1 key: Build -> ToCommandLine -> flags.Parse -> Build -> ToCommandLine"))
+for (a,b) in [("uid","arch"),("arch","uid"),("path","perm"),("perm","path"),("exe","msgtype")]:
+    if b=="msgtype": continue
+    c07.append(job(f"two-{a}-{b}","rule/flags","VH_RoundTrip",["C07/"],{"shape":0,"field":RTF.index(a),"second":RTF.index(b),"list":0,"digits":3,"strmax":1,"maxkeys":1,"sysforms":2,"oneop":1,"realpath":1},Q,expect=["C07/accepted-by-build"],
+       bounds=f"two filters in the order {a}, {b} (field order, watch-shaped rules)"))
+c07.append(job("watch","rule/flags","VH_RoundTrip",["C07/"],{"shape":1},Q,expect=["C07/accepted-by-build"],bounds="file watches on a file, a directory and a non-existing path (Stat stub) x 16 permission subsets x 0..1 key"))
+C["C07"]={"jobs":c07,"assumptions":RULE_ASSUME+PARSE_ASSUME[:2]+["string values contain no white space, quotes, backslashes or control characters (ToCommandLine does not quote)","resolveIds=false","watch-shaped rules use paths the Stat stub (and any Linux file system) classifies the same way in both Build calls"],
+   "outside":["rules with more than two filters","other architectures","resolveIds=true"]}
 json.dump(C,open('/verif/checks.json','w'),indent=1)
 print({k:len(v["jobs"]) for k,v in C.items()})
